@@ -571,9 +571,44 @@ def membership_by_equality(ctx, cr):
            "%d evaluator functions scanned; %d function(s) with a hash collection keyed by values seen (the reviewed grouping in report_at_least_one)" % (n_fns, len(users)))
 
 
+def singleton_shorthand(ctx, cr):
+    """in a map-keys filter a scalar key compared with a LITERAL list is compared with the list's element only when the list has exactly
+    one element (`keys == ['x']` means `keys == 'x'`); for longer lists the comparison is with the list as a whole.  each_lhs_compare
+    must test the length for equality with 1 before taking that route — `rhs.first()` alone makes a string == / != a two-element list."""
+    rule = "R-C13-eq-routes"
+    key = "rules::eval::each_lhs_compare"
+    unit = [k for k in cr.fns if k == key or k.startswith(key + "::{closure")]
+    if not unit:
+        ctx.lost(rule, rule + ":singleton-shorthand", key)
+        return
+    tests, firsts = 0, []
+    for k in unit:
+        f = cr.fns[k]
+        for bi, si, st in M.iter_stmts(f):
+            rv = st.get("rv")
+            if rv and rv.get("r") == "bin" and rv.get("op") == "Eq":
+                for x, y in ((rv["a"], rv["b"]), (rv["b"], rv["a"])):
+                    if "k" in y and y["k"].get("v") == 1 and not isinstance(y["k"].get("v"), bool) and M.op_place(x) is not None:
+                        from rules.c08 import def_of_local
+                        d = def_of_local(f, M.place_local(M.op_place(x)))
+                        if d and ((d[0] == "call" and M.norm_path(d[2]["fn"].get("path", "")).split("::")[-1] == "len") or
+                                  (d[0] == "stmt" and d[2]["rv"].get("r") in ("len", "un") and str(d[2]["rv"].get("op", "PtrMetadata")) in ("PtrMetadata", "Len"))):
+                            tests += 1
+        for bi, t in M.iter_calls(f):
+            p = M.norm_path(t["fn"].get("path", ""))
+            if p.split("::")[-1] in ("first", "last", "get", "iter", "into_iter", "pop") and ("[T]" in p or "Vec" in p) and t["args"]:
+                ty, _ = M.place_ty(cr, None, M.op_place(t["args"][0]), f) if M.op_place(t["args"][0]) is not None else (None, None)
+                if ty is not None and "PathAwareValue" in cr.ty_str(ty.idx) and "QueryResult" not in cr.ty_str(ty.idx) and p.split("::")[-1] in ("first", "last", "get", "pop"):
+                    firsts.append("%s (l.%s)" % (p.split("::")[-1], t.get("ln")))
+    ok = tests >= 1 and not firsts
+    ctx.ob(rule, rule + ":singleton-shorthand", ok, ("each_lhs_compare takes an element of a literal list through %s%s: the one-element shorthand fires for longer lists too" % (firsts, "" if tests else " without testing len() == 1")) if not ok
+           else "the element-of-a-literal-list shorthand is guarded by len() == 1", fn=cr.fns[key])
+
+
 def run(ctx):
     cr = ctx.lib
     membership_by_equality(ctx, cr)
+    singleton_shorthand(ctx, cr)
     order_tables(ctx, cr)
     kernel(ctx, cr)
     eq_routes(ctx, cr)
